@@ -311,7 +311,7 @@ def coq_prove(prop, timeout=1500):
         if "Closed under the global context" in txt:
             ax = []
         else:
-            ax = re.findall(r"^([A-Za-z_][A-Za-z0-9_.']*)\s*:", txt, re.M)
+            ax = [a for a in re.findall(r"^([A-Za-z_][A-Za-z0-9_.']*)\s*:", txt, re.M) if a != "Axioms"]
         res["axioms"][t] = ax
         for a in ax:
             if a not in ALLOWED_AXIOMS and a.split(".")[-1] not in ALLOWED_AXIOMS:
